@@ -271,6 +271,20 @@ def _session_scenario(rng, purpose="rewind", allow_spend=True):
     return scn
 
 
+def deep_scenario(rng):
+    """A session of thousands of operations (a script may have 10 000 bytes; pushes and unexecuted operations do not
+    count against the operation limit): what a user gets by holding Enter.  Every step prints the remaining script,
+    so stdout is counted instead of recorded and the probe reports scripts by digest."""
+    n = rng.weighted([(2, rng.range(4100, 5200)), (2, rng.range(5200, 8400)), (1, rng.range(8400, 9950))])
+    k = rng.range(10, 60)
+    toks = [rng.range(1, 16) for _ in range(k)] + [0, "OP_IF"] + [rng.range(1, 16) for _ in range(n - k - 4)] + ["OP_ENDIF", 1]
+    scn = {"family": "deep", "opts": [], "stack": [], "spend": None, "observe": False, "tty": [1, 1], "env": {},
+           "script": hexs(S.asm(toks)), "discard_stdout": True, "probe_light": True, "cap": 4 * n + 200, "alarm_s": 900, "features": ["deep"]}
+    rounds = [r + d for r in (4096, 5000, 6000, 8000, 8192, n) for d in (-1, 0, 1, 2, 3) if 0 < r + d <= n]
+    scn["deep_depth"] = rng.choice(rounds) if rng.chance(50) else n
+    return scn
+
+
 def shrink_script(scn, still, budget):
     """shorten the script op by op (whole ops, so the remainder still decodes)"""
     from .core import ddmin
